@@ -71,7 +71,7 @@ func (e *Ec) VerifyZ(q ocurve.Pt, r, s, z *big.Int) (Decision, ocurve.Pt) {
 	u1.Mod(u1, e.N)
 	u2 := new(big.Int).Mul(r, si)
 	u2.Mod(u2, e.N)
-	x := e.C.Add(e.C.Mul(e.G, u1), e.C.Mul(q, u2))
+	x := JointMul(e.C, e.G, u1, q, u2)
 	if x.Inf {
 		return Decision{Reason: "X=O"}, x
 	}
@@ -107,5 +107,28 @@ func (e *Ec) Recover(z *big.Int, v uint, r, s *big.Int) (ocurve.Pt, string) {
 	u1.Neg(u1).Mod(u1, e.N)
 	u2 := new(big.Int).Mul(s, ri)
 	u2.Mod(u2, e.N)
-	return e.C.Add(e.C.Mul(e.G, u1), e.C.Mul(rp, u2)), ""
+	return JointMul(e.C, e.G, u1, rp, u2), ""
+}
+
+// JointMul returns [a]P + [b]Q (a, b >= 0) by simultaneous double-and-add over the textbook group law
+// (one doubling per bit, one addition of P, Q or P+Q per non-zero bit column).
+func JointMul(c *ocurve.Curve, p ocurve.Pt, a *big.Int, q ocurve.Pt, b *big.Int) ocurve.Pt {
+	pq := c.Add(p, q)
+	r := ocurve.Pt{Inf: true}
+	n := a.BitLen()
+	if b.BitLen() > n {
+		n = b.BitLen()
+	}
+	for i := n - 1; i >= 0; i-- {
+		r = c.Double(r)
+		switch a.Bit(i) | b.Bit(i)<<1 {
+		case 1:
+			r = c.Add(r, p)
+		case 2:
+			r = c.Add(r, q)
+		case 3:
+			r = c.Add(r, pq)
+		}
+	}
+	return r
 }
